@@ -128,6 +128,36 @@ static int check_symbols(const char *repo, char *why, size_t n)
 	return ok;
 }
 
+/* ---- libc functions with hidden process-wide state must not be called by the runtime ---- */
+/* returns 1 ok, 0 violated, -1 undecided.  Reads the undefined symbols of the object file listed by
+ * check_symbols (c11_ovni.nm).  Calling one of these from two tracing threads is a data race inside the
+ * library even though no static of ovni.c is involved (POSIX.1-2008 2.9.1 "need not be thread-safe"). */
+static int check_nonreentrant(char *why, size_t n)
+{
+	static const char *deny[] = { "strtok", "localtime", "gmtime", "asctime", "ctime", "rand", "srand", "drand48",
+		"lrand48", "mrand48", "getlogin", "ttyname", "tmpnam", "setenv", "putenv", "unsetenv", "strsignal",
+		"getpwnam", "getpwuid", "getgrnam", "getgrgid", "gethostbyname", "readdir_r_unused", "basename_unused",
+		"ecvt", "fcvt", "gcvt", "l64a", "ptsname", "crypt", "encrypt", "setkey", "hcreate", "hsearch", NULL };
+	FILE *f = fopen("c11_ovni.nm", "r");
+	if (!f) { snprintf(why, n, "no symbol listing"); return -1; }
+	char line[1024]; int ok = 1;
+	while (fgets(line, sizeof(line), f)) {
+		/* Name |Value |Class |...: class 'U' = undefined */
+		char name[256]; size_t k = 0; const char *q = line;
+		while (*q == ' ') q++;
+		while (*q && *q != '|' && *q != ' ' && k < sizeof(name) - 1) name[k++] = *q++;
+		name[k] = 0;
+		if (k == 0) continue;
+		char *c = strchr(line, '|'); if (!c) continue; c = strchr(c + 1, '|'); if (!c) continue;
+		c++; while (*c == ' ') c++;
+		if (*c != 'U') continue;
+		for (int i = 0; deny[i]; i++)
+			if (strcmp(name, deny[i]) == 0) { if (ok) snprintf(why, n, "src/rt/ovni.c (with its headers) calls `%s`, which keeps hidden process-wide state", name); ok = 0; }
+	}
+	fclose(f);
+	return ok;
+}
+
 /* ---- one concurrent run of the per-thread protocol ---- */
 static void *smoke_worker(void *arg)
 {
@@ -267,6 +297,13 @@ int main(int argc, char **argv)
 	printf("OBL writable_statics_are_rproc_and_rthread %s %s\n", sy ? "PASS" : "FAIL",
 			sy ? "object file of src/rt/ovni.c: only rproc (OBJECT) and rthread (TLS) outside read-only sections" : why);
 	nobl++; bad += !sy;
+
+	why[0] = '\0';
+	int nr = check_nonreentrant(why, sizeof(why));
+	if (nr < 0) { fprintf(stderr, "undecided: %s\n", why); return 2; }
+	printf("OBL no_nonreentrant_libc_calls %s %s\n", nr ? "PASS" : "FAIL",
+			nr ? "no undefined symbol of ovni.o is on the list of libc functions with hidden process-wide state (strtok, localtime, rand, setenv, ...)" : why);
+	nobl++; bad += !nr;
 
 	/* the concurrent run aborts (die) on a broken library: only attempted when the storage facts hold */
 	why[0] = '\0';
